@@ -73,7 +73,7 @@ theorem C12_handler_view (f : Icpt σ) (inner : Inner ι β ρ ε) (s s' : σ) (
   rfl
 
 /-- Back-pressure: readiness of the intercepted service is the wrapped service's — pending stays
-pending, a readiness error is passed on, and the interceptor plays no part. -/
+pending, a readiness error is passed on, and the interceptor plays no part. (Transcription lemma: it holds by unfolding the model's definition, so it pins the model's shape for the correspondence run — its assurance about tonic is the tie, not this proof.) -/
 theorem C12_poll_ready (innerReady : ι → Poll ε) (i : ι) : pollReady innerReady i = innerReady i := rfl
 
 /-- Accept, as the oracle judges it: all accept clauses of `Spec.Interceptor` hold of what the
@@ -104,7 +104,7 @@ theorem C12_response_passthrough (f : Icpt σ) (inner : Inner ι β ρ ε) (s s'
   | mk i' r => cases r <;> simp
 
 /-- The wrapped body is delegated to: end-of-stream flag, size hint and frames of the response
-body are the wrapped service's. -/
+body are the wrapped service's. (Transcription lemma: it holds by unfolding the model's definition, so it pins the model's shape for the correspondence run — its assurance about tonic is the tie, not this proof.) -/
 theorem C12_response_body_delegates (eos : ρ → Bool) (size : ρ → Nat) (frames : ρ → Body) (b : ρ) :
     RespBody.isEndStream eos (RespBody.wrap b) = eos b ∧
     RespBody.sizeHint size (RespBody.wrap b) = size b ∧
@@ -299,7 +299,8 @@ theorem C12_sequence (f : Icpt σ) (inner : Inner ι β ρ ε) (s : σ) (i : ι)
         rw [h1, h2, h3]
         simp [this.1, this.2]
 
-/-- Every element of a sequence run *is* a single call (from the states reached so far), so the
+/-- Every element of a sequence run *is* a single call from SOME pair of states (existential: which
+states — those reached by the earlier calls — is what `C12_sequence` says, not this lemma), so the
 single-call theorems (`C12_accept`, `C12_reject`, `C12_response_passthrough`) apply to each call
 of any sequence. -/
 theorem C12_sequence_each (f : Icpt σ) (inner : Inner ι β ρ ε) (s : σ) (i : ι) (reqs : List (Request β))
@@ -319,7 +320,7 @@ theorem C12_sequence_each (f : Icpt σ) (inner : Inner ι β ρ ε) (s : σ) (i 
 /-! ### the `tonic::Request` ⇄ `http::Request` conversions used on the way (request.rs) -/
 
 /-- `into_http(.., SanitizeHeaders::No)` after `from_http` gives back the request (so the path
-through `tonic::Request` loses nothing when method / URI / version are re-supplied) … -/
+through `tonic::Request` loses nothing when method / URI / version are re-supplied) … (Transcription lemma: it holds by unfolding the model's definition, so it pins the model's shape for the correspondence run — its assurance about tonic is the tie, not this proof.) -/
 theorem C12_from_into_http_no (req : Request β) :
     intoHttp (fromHttp req) req.uri req.method req.version .no = req := by
   cases req; rfl
